@@ -625,6 +625,13 @@ def corpus():
             for ty in ("i", "m"):
                 res.append((dict(base, imm=imm, mut=mut), now,
                             [{"ty": ty, "leases": [(1, now - 400 * DAY, 1), (2, now - 50 * DAY, 2)]}], False))
+    # lease ORDER on disk (seeded/C26-a): a valid lease in front of / between expired ones must survive the cancel
+    # loop and keep the share; all-expired shares in the same orders must go.  V = renewed now, E = 400 days ago.
+    for base in (dict(cut, cutoff=MID - 40 * DAY), dict(ov31, prod=True)):
+        for ty in ("i", "m"):
+            for pat in ("VEEE", "EVEEE", "VEVE", "EEVE", "EEEE", "VEEEE"):
+                leases = [(k + 1, now if ch == "V" else now - 400 * DAY - k, k + 1) for k, ch in enumerate(pat)]
+                res.append((base, now, [{"ty": ty, "leases": leases}], False))
     res.append((dict(cut, enabled=False), now, [{"ty": "i", "leases": [(1, now - 400 * DAY, 1)]}], True))
     res.append((dict(cut, imm=False), now, [{"ty": "i", "leases": [(1, now - 400 * DAY, 1)]}, {"ty": "m", "leases": [(2, now - 400 * DAY, 2)]}], False))
     return res
@@ -727,7 +734,7 @@ def _run(ctx, env):
     else:
         cases += corpus()
         cfgs = all_cfgs()
-        n = ctx.budget(500, 12000)
+        n = 0 if os.environ.get("VERIF_CORPUS_ONLY") else ctx.budget(500, 12000)   # knob: fixed corpora only
         for i in range(n):
             cfg = cfgs[(i - i // 3) % len(cfgs)] if i % 3 else gen_cfg(rng)
             now = T0 + rng.choice([0, 1, 12345, 200 * DAY])
@@ -752,7 +759,7 @@ def _run(ctx, env):
     if ctx.replay:
         return
     # (B) whole cycles: distinct cancel secrets (a raising bucket would abort the cycle; those are covered by (A))
-    ncyc = ctx.budget(60, 1200)
+    ncyc = 0 if os.environ.get("VERIF_CORPUS_ONLY") else ctx.budget(60, 1200)
     cyc_cases, cyc_impl, cyc_model = [], [], []
     fixed = cycle_corpus()
     for i in range(len(fixed) + ncyc):
